@@ -419,10 +419,13 @@ func (r *Run) Undecided(reason string) {
 	r.mu.Unlock()
 }
 
-func (c *Case) Count(name string, n int64)  { c.R.Count(name, n) }
-func (c *Case) Undecided(reason string)     { c.R.Undecided(reason) }
-func (c *Case) Nontrivial(sig string)       { c.R.Nontrivial(sig) }
-func (c *Case) Max(name string, v float64)  { c.R.Max(name, v) }
+func (c *Case) Count(name string, n int64) { c.R.Count(name, n) }
+func (c *Case) Undecided(reason string)    { c.R.Undecided(reason) }
+
+// Evaluations adds executions that a single Case ran on its own (child-process batches).
+func (c *Case) Evaluations(n int64)        { atomic.AddInt64(&c.R.evaluations, n) }
+func (c *Case) Nontrivial(sig string)      { c.R.Nontrivial(sig) }
+func (c *Case) Max(name string, v float64) { c.R.Max(name, v) }
 func (c *Case) Sample(kind string, n int, v interface{}) {
 	c.R.Sample(kind, n, v)
 }
